@@ -280,6 +280,87 @@ def _consistency(t):
     return dict(cid=cid, status='ok', viols=out, judged=judged, input=src if out else None, cfg=cfggen.text(a), nontrivial=f.out != src, lang=lang)
 
 
+VFC_LINE = re.compile(rb'^[ \t]*(/\* vfc\d+ \*/|// vfc\d+)[ \t]*$')
+VFT_TAIL = re.compile(rb'[ \t]*(/\* vft\d+ \*/|// vft\d+)[ \t]*$')
+WORD = re.compile(rb'[A-Za-z_][A-Za-z_0-9]*|[^A-Za-z_0-9\s]')
+
+
+def inject_line_comments(data, r, p_own=0.25, p_tail=0.2):
+    """Comments at line granularity only: own-line comments between two lines, trailing comments at the end of a line."""
+    out = []
+    lines = data.split(b'\n')
+    for k, line in enumerate(lines):
+        st = line.strip()
+        is_pp = st.startswith(b'#')
+        if k > 0 and st and not is_pp and not lines[k - 1].rstrip().endswith(b'\\') and r.random() < p_own:
+            c = (b'/* vfc%d */' if r.random() < 0.5 else b'// vfc%d') % k
+            out.append(b' ' * r.randint(0, 12) + c)
+        if st and not is_pp and not st.endswith(b'\\') and b'//' not in st and r.random() < p_tail:
+            c = (b'/* vft%d */' if r.random() < 0.5 else b'// vft%d') % k
+            line = line + b' ' * r.randint(1, 3) + c
+        out.append(line)
+    return b'\n'.join(out)
+
+
+def strip_injected(data):
+    out = []
+    for line in split_lines(data):
+        if VFC_LINE.match(line):
+            continue
+        out.append(VFT_TAIL.sub(b'', line))
+    return out
+
+
+def _comment_invariance(t):
+    """Indentation reflects nesting, and a comment does not change nesting: the code lines keep their leading whitespace when comments are
+    put between lines or at the end of lines."""
+    cid, kind, spec, a = t
+    if kind == 'gen':
+        lang, P, fr = gen_program(spec)
+        base, _ = P.render(fr, style=fr.choice(['allman', 'mixed']), indent=3)
+    else:
+        name, lang, text = progen.mod_hosts()[spec]
+        base = text
+        fr = fixed_rng(PROP, 'cmthost:%s' % cid)
+    f0 = fmt.fmt(base, lang, cfggen.text(a), name='Gen.java' if lang == 'JAVA' else None)
+    if f0.out is None:
+        return dict(cid=cid, status='rejected', viols=[])
+    viols = []
+    judged = 0
+    variant = None
+    for v in range(2):
+        vr = fixed_rng(PROP, 'cmtvar:%s:%d' % (cid, v))
+        x1 = inject_line_comments(base, vr)
+        f1 = fmt.fmt(x1, lang, cfggen.text(a), name='Gen.java' if lang == 'JAVA' else None)
+        if f1.out is None:
+            viols.append(('comment-changes-status', 'with comments between / after lines the run ends with %s' % f1.res.how()))
+            variant = x1
+            break
+        l0 = [l for l in split_lines(f0.out)]
+        l1 = strip_injected(f1.out)
+        if len(l0) != len(l1) or any(squeeze(p) != squeeze(q) for p, q in zip(l0, l1)):
+            return dict(cid=cid, status='unmapped', viols=[])
+        for k, (p, q) in enumerate(zip(l0, l1)):
+            if not p.strip() or p.strip().startswith((b'/*', b'//')):
+                continue            # the statement speaks of statements; comment lines may follow their neighbours
+            judged += 1
+            if lead_of(p) != lead_of(q):
+                prev = next((l0[j] for j in range(k - 1, -1, -1) if l0[j].strip()), b'')
+                pw = WORD.findall(prev)
+                tw = WORD.findall(p)
+                ctxt = '%s->%s' % (pw[-1].decode('latin-1') if pw else '', tw[0].decode('latin-1') if tw else '')
+                if pw and pw[-1] == b':' and len(pw) > 1:
+                    ctxt = '%s:->%s' % ('case' if pw[0] in (b'case', b'default') else 'label', tw[0].decode('latin-1'))
+                viols.append(('comment-changes-indent|' + ctxt, 'line %d %r: leading whitespace %r without the injected comments, %r with them' % (
+                    k + 1, p.strip()[:40], lead_of(p), lead_of(q))))
+                variant = x1
+                break
+        if viols:
+            break
+    return dict(cid=cid, status='ok', viols=[(k_, d, a) for k_, d in viols], judged=judged, input=base if viols else None, variant=variant,
+                cfg=cfggen.text(a), nontrivial=f0.out != base, lang=lang)
+
+
 def reindent_all(data, r):
     out = []
     for line in data.split(b'\n'):
@@ -407,6 +488,38 @@ def check(ctx):
             seen.add(key)
             ctx.violation(key, '%s (case %s, %s): %s\n  options: %s' % (kind, r['cid'], r['lang'], detail, a), files={'input': r['input'], 'config.cfg': r['cfg']})
     ctx.count('consistency_lines_judged', tot_c)
+    # comment invariance: generated programs and the hand-written hosts (case braces, lambdas / blocks as arguments, one-liners)
+    cm = []
+    for i in sr.sample(range(PU), 500 if quick else 6000):
+        fr = fixed_rng(PROP, 'cmx%d' % i)
+        a = cfg_assign(model_config(fr, 'C'))
+        for name, vals in fr.sample(STYLE_OPTS, fr.choice([0, 1, 2, 4])):
+            a[name] = fr.choice(vals)
+        cm.append(('cmt-gen:%d' % i, 'gen', i, a))
+    for h, (hname, hlang, htext) in enumerate(progen.mod_hosts()):
+        for j in range(12 if quick else 120):
+            fr = fixed_rng(PROP, 'cmh:%s:%d' % (hname, j))
+            a = cfg_assign(model_config(fr, hlang)) if j else {}
+            for name, vals in fr.sample(STYLE_OPTS, fr.choice([0, 1, 2, 4]) if j else 0):
+                a[name] = fr.choice(vals)
+            cm.append(('cmt-host:%s:%d' % (hname, j), 'host', h, a))
+    tot_m = 0
+    for r in pmap(_comment_invariance, cm):
+        ctx.evaluations += 3
+        ctx.count('comment_inv_' + r['status'])
+        if r['status'] != 'ok':
+            continue
+        tot_m += r['judged']
+        if r['nontrivial']:
+            ctx.nt(r['cid'])
+        for kind, detail, a in r['viols']:
+            key = '%s|%s' % (kind, r['lang'])
+            if key in seen:
+                continue
+            seen.add(key)
+            ctx.violation(key, '%s (case %s, %s): %s\n  options: %s' % (kind, r['cid'], r['lang'], detail, a),
+                          files={'input': r['input'], 'input-with-comments': r['variant'], 'config.cfg': r['cfg']})
+    ctx.count('comment_invariance_lines_judged', tot_m)
     for r in okc[:3]:
         ctx.sample(dict(case=r['cid'], lang=r['lang'], lines_judged=r['judged'], max_level=r['maxdepth']))
     ctx.assumptions += ['the closed form covers indent_columns, indent_with_tabs, output_tab_size, indent_switch_case and indent_namespace; other '
@@ -418,3 +531,4 @@ def check(ctx):
     ctx.require('closed_form_lines_judged', 60000)
     ctx.require('invariance_lines_judged', 40000)
     ctx.require('consistency_lines_judged', 40000)
+    ctx.require('comment_invariance_lines_judged', 20000)
